@@ -1,13 +1,15 @@
 #!/bin/bash
 # usage: seedrun.sh <seed id e.g. C01-A> [check ...]   -- runs the property's quick check against a scratch worktree with the seeded change
+# (the worktree is created and removed under a lock: concurrent `git worktree add/remove` in one repository race)
 id="$1"; shift; prop=${id%-*}; checks="${@:-$prop}"
 wt=/tmp/sr_$id
-cd /repo; git worktree remove --force $wt 2>/dev/null; git worktree add --detach $wt HEAD >/dev/null 2>&1
-cd $wt && git apply /verif/seeded/$id/patch.diff || { echo "$id PATCH-FAILS"; cd /repo; git worktree remove --force $wt; exit 0; }
+lock=/tmp/seedrun.lock
+flock $lock sh -c "git -C /repo worktree remove --force $wt 2>/dev/null; git -C /repo worktree prune; git -C /repo worktree add --detach $wt HEAD >/dev/null 2>&1"
+cd $wt 2>/dev/null && git apply /verif/seeded/$id/patch.diff || { echo "$id PATCH-FAILS"; flock $lock git -C /repo worktree remove --force $wt 2>/dev/null; exit 0; }
 cd /verif
 for c in $checks; do
   out=$(VERIF_REPO=$wt python3 tools/check.py $c --tier quick 2>&1)
   rc=$?
   echo "$id $c rc=$rc nviol=$(echo "$out" | grep -c '^VIOLATION') rules: $(echo "$out" | grep '^VIOLATION' | sed 's/.*rule=\([^ ]*\).*/\1/' | sort | uniq -c | tr '\n' ' ') $(echo "$out" | grep -E 'INFRA' | cut -c1-200)"
 done
-cd /repo; git worktree remove --force $wt 2>/dev/null
+flock $lock git -C /repo worktree remove --force $wt 2>/dev/null
